@@ -1,6 +1,8 @@
 import TexelVerif.Chess.GenCheck
 import TexelVerif.Chess.Geometry
 import TexelVerif.Chess.Line
+import TexelVerif.Chess.TexelGen
+import TexelVerif.Chess.TexelGenMore
 import TexelVerif.Drv.Util
 /-! Line protocol for the chess specification (properties C01, C02, C17 …). -/
 namespace Drv.Chess
@@ -56,6 +58,34 @@ def parseGenData (w : Bool) (toks : List String) : Option GenData := do
 
 def fenOf (toks : List String) : String := " ".intercalate toks
 
+/-- moves in list order (the order is part of the comparison with the C++ generator) -/
+def showOrdered (l : List Mv) : String := " ".intercalate (l.map mvToUci)
+def showBits (l : List Bool) : String := if l.isEmpty then "-" else String.join (l.map b2s)
+/-- sections joined by single spaces, empty ones dropped (as the harness normalises double spaces) -/
+def joinSecs (l : List String) : String := " ".intercalate (l.filter fun s => s != "")
+
+/-- the model of Texel's generator run on one position: same line as the harness op `chess tmg` -/
+def texelDump (p : Pos) (k ok : Sq) : String :=
+  let inChk := Texel.inCheckK p.b p.wtm k
+  let ps := Texel.pseudoLegalMoves p k
+  let lv := ps.map fun m => Texel.isLegal p k m inChk
+  let gv := ps.map fun m => Texel.givesCheck p ok m
+  let rm := Texel.removeIllegal p k ps
+  let ev := if inChk then Texel.checkEvasions p k else []
+  joinSecs [b2s inChk, "P", showOrdered ps, "L", showBits lv, "G", showBits gv, "R", showOrdered rm,
+    "E", showOrdered ev, "C", showOrdered (Texel.pseudoLegalCaptures p k), "K", showOrdered (Texel.pseudoLegalCapturesAndChecks p k ok)]
+
+def modelAtk (pc : Nat) (s : Sq) (occ : Nat) : PosImpl.BB :=
+  let o : PosImpl.BB := BitVec.ofNat 64 occ
+  match pc with
+  | 1 | 7 => Texel.kingAttacks s
+  | 2 | 8 => Texel.rookAttacks s o ||| Texel.bishopAttacks s o
+  | 3 | 9 => Texel.rookAttacks s o
+  | 4 | 10 => Texel.bishopAttacks s o
+  | 5 | 11 => Texel.knightAttacks s
+  | 6 => Texel.wPawnAttacks s
+  | _ => Texel.bPawnAttacks s
+
 def step (args : List String) : String :=
   match args with
   | "fen" :: rest =>
@@ -95,6 +125,28 @@ def step (args : List String) : String :=
           | none => s!"illegal {i} {s}"
           | some m => if legalB p m then go (fixupEP (apply p m)) rest (i + 1) else s!"illegal {i} {s}"
       go p moves 0
+  | "tmg" :: rest =>
+    match readFEN (fenOf rest) with
+    | .error e => "err " ++ e.toString
+    | .ok p =>
+      match kingSq p.b p.wtm, kingSq p.b (!p.wtm) with
+      | some k, some ok => if Texel.genWFb p k && Texel.kingsApartB p k then texelDump p k ok else "err hypotheses-of-the-generator-theorems-fail"
+      | _, _ => "err no-king"
+  | ["tatk", pc, s, occ] =>
+    match parseNat? pc, parseNat? s, parseNat? occ with
+    | some pc, some s, some occ =>
+      if h : s < 64 then
+        if 1 ≤ pc ∧ pc ≤ 12 ∧ occ < 2^64 then hex (modelAtk pc ⟨s, h⟩ occ).toNat else "bad-op"
+      else "bad-op"
+    | _, _, _ => "bad-op"
+  | ["imask", pc, s] =>
+    match parseNat? pc, parseNat? s with
+    | some pc, some s =>
+      if h : s < 64 then
+        if pc == 3 then hex (Texel.rookInner ⟨s, h⟩).toNat
+        else if pc == 4 then hex (Texel.bishopInner ⟨s, h⟩).toNat else "bad-op"
+      else "bad-op"
+    | _, _ => "bad-op"
   | ["atk", pc, s, occ] =>
     match parseNat? pc, parseNat? s, parseNat? occ with
     | some pc, some s, some occ =>
